@@ -256,10 +256,9 @@ unsafe extern "C" fn bdd_high(bdd: *mut BddPtr) -> *mut BddPtr {
 
 #[no_mangle]
 unsafe extern "C" fn print_bdd(bdd: *mut BddPtr) -> *const c_char {
-    let s = std::ffi::CString::new((*bdd).print_bdd()).unwrap();
-    let p = s.as_ptr();
-    std::mem::forget(s);
-    p
+    // hand ownership of the buffer to the caller (as_ptr() + forget() leaves a
+    // pointer that moving the CString invalidates)
+    std::ffi::CString::new((*bdd).print_bdd()).unwrap().into_raw()
 }
 
 #[no_mangle]
@@ -272,10 +271,7 @@ unsafe extern "C" fn bdd_num_recursive_calls(builder: *mut RsddBddBuilder) -> us
 pub unsafe extern "C" fn bdd_to_json(bdd: *mut BddPtr) -> *const c_char {
     let json = BDDSerializer::from_bdd(*bdd);
     let str = serde_json::to_string(&json).unwrap();
-    let cstr = std::ffi::CString::new(str).unwrap();
-    let p = cstr.as_ptr();
-    std::mem::forget(cstr);
-    p
+    std::ffi::CString::new(str).unwrap().into_raw()
 }
 
 #[no_mangle]
